@@ -39,7 +39,19 @@ def configs():
             if t == "socket" and md == "main_thread_only":
                 continue  # a main_thread_only master is occupied by the server loop (documented)
             out.append((t, md))
+    # the same source shipped to other supported interpreters than the one that runs the initiating side
+    for t, md in (("py3.10", "thread"), ("py3.10", "main_thread_only"), ("py3.11", "thread"), ("py3.13", "main_thread_only"), ("via-py3.10", "thread")):
+        if other_python(t) is not None:
+            out.append((t, md))
     return out
+
+
+def other_python(transport):
+    import glob
+
+    ver = transport.split("py", 1)[1]
+    found = sorted(glob.glob(f"/root/.pyenv/versions/{ver}.*/bin/python"))
+    return found[-1] if found else None
 
 
 def shards(tier, seed):
@@ -58,6 +70,12 @@ def make_gateway(group, transport, model):
         return group.makegateway(f"popen//execmodel={model}")
     if transport == "python":
         return group.makegateway(f"popen//python={sys.executable}//execmodel={model}")
+    if transport.startswith("py3"):
+        return group.makegateway(f"popen//python={other_python(transport)}//execmodel={model}")
+    if transport.startswith("via-py3"):
+        if "master" not in group:
+            group.makegateway("popen//id=master")
+        return group.makegateway(f"popen//via=master//python={other_python(transport)}//execmodel={model}")
     if transport == "socket":
         # the socket gateway lives in its server's process and takes that process' exec model
         if "smaster" not in group:
@@ -211,6 +229,7 @@ def run_programs_on(res, gw, rng_seed, n, label, big):
             else:
                 norm.append(o)
         out.append(norm)
+    out.append(callback_error_program(res, gw, label))
     tr, want, nbytes = run_bulk(gw, rng, big)
     res.count("bulk_bytes", nbytes)
     if tr != want:
@@ -218,6 +237,59 @@ def run_programs_on(res, gw, rng_seed, n, label, big):
         res.violation(f"bulk-transcript-differs:{label}", f"entry {j}: {short(tr[j:j + 1])} != {short(want[j:j + 1])}")
     out.append(tr)
     return out
+
+
+CALLBACK_ERROR = r"""
+sub = channel.gateway.newchannel()
+other = channel.gateway.newchannel()
+seen = []
+def cb(item):
+    seen.append(item)
+    if item == "bad":
+        raise ValueError("callback-error-42")
+sub.setcallback(cb)
+channel.send((sub, other))
+channel.receive()
+other.send(("other channel still works", seen))
+channel.send("exec channel still works")
+"""
+
+
+def callback_error_program(res, gw, label):
+    """a receiver callback registered by the remote code fails: only that channel ends (with the error), everything else
+    of the gateway goes on - the same on every way of reaching a worker"""
+    from execnet.gateway_base import RemoteError
+
+    tr = []
+    try:
+        ch = gw.remote_exec(CALLBACK_ERROR)
+        sub, other = ch.receive(20)
+        sub.send("fine")
+        sub.send("bad")
+        try:
+            sub.waitclose(20)
+            tr.append("sub closed without error")
+        except RemoteError as e:
+            tr.append(("RemoteError", "ValueError" in str(e), "callback-error-42" in str(e)))
+        except BaseException as e:  # noqa
+            tr.append(type(e).__name__)
+        ch.send(None)
+        for c in (other, ch):
+            try:
+                tr.append(c.receive(20))
+            except BaseException as e:  # noqa
+                tr.append(type(e).__name__)
+        try:
+            tr.append(gw.remote_exec("channel.send(6 * 7)").receive(20))
+        except BaseException as e:  # noqa
+            tr.append(type(e).__name__)
+    except BaseException as e:  # noqa
+        tr.append(f"{type(e).__name__}")
+    res.count("remote_callback_error_programs")
+    want = [("RemoteError", True, True), ("other channel still works", ["fine", "bad"]), "exec channel still works", 42]
+    if tr != want:
+        res.violation(f"remote-callback-failure-handled-differently:{label}", f"{short(tr, 300)} != {short(want, 300)}")
+    return tr
 
 
 class SlowSock:
